@@ -695,6 +695,10 @@ def hyp_cases(draw, tier):
     return {"program": prog, "schedule": schedule}
 
 
+# (what round 8 added to the case domain; part of the evidence text)
+RULE_ROUND8 = " Real-lock part, mode after-exception: a thread leaves `with tree:` by KeyError(404) / OSError(2,'x') / ValueError() / StopTraversal(5) / SystemExit(3) / from a nested section, or a snapshot operation raises (colliding copy_to / add(tree), raising mapper / predicate, unwritable path); the thread stays alive and a second thread must then complete its snapshot with the committed state. Exhaustive part: a 300-node tree (thorough: 130 / 300 / 700, plain and typed) with a writer section that changes the front AND the end of the tree, against save / copy / copy_to(deep=False) (thorough: also save(path), copy_to, to_dotfile(path))."
+RULE = RULE + RULE_ROUND8
+
 PARTS = [
     Part("all-schedules", run_exhaustive, enum=enum_cases, watchdog=3600),
     Part("random-programs", run_random, strategy=hyp_cases, n={"quick": 100, "thorough": 20000}, watchdog=600),
